@@ -127,7 +127,9 @@ Section Run.
                  (obs_grant o)
     | 7, OBits a n v leak =>
         let pending := if c_plain c then Some (c_key c) else None in
-        negb leak && (a =? slave_doc_pw pending v)%string && (n =? slave_doc_pw pending v)%string
+        (* without a pending password the hub shows the slave's own (cached, possibly older) "set"/"" answer *)
+        negb leak && (if c_plain c then (a =? slave_doc_pw pending v)%string && (n =? slave_doc_pw pending v)%string
+                      else is_bit a && is_bit n)
     | _, _ => false
     end.
 
